@@ -19,11 +19,13 @@ def build(repo, findings):
     u.prelude('env/spec.rs')
     u.add(src.item(r'^pub struct ShellEnvironment ', 'ShellEnvironment').r1(keep_derive=()).r11().pub_fields())
     im = src.item(r'^impl ShellEnvironment ', 'impl ShellEnvironment').r1()
-    im.keep_only_fns(['new', 'push_scope', 'pop_scope', 'get', 'try_unset_in_map'],
-                     'iter_mut().rev() mutable iteration (add, unset, get_mut*), HashMap::entry / filter closures (iter*), Cow (get_str), assign paths (update_or_add*) — NOT verified')
+    im.keep_only_fns(['new', 'push_scope', 'pop_scope', 'get', 'unset', 'try_unset_in_map'],
+                     'iter_mut().rev() mutable iteration (add, get_mut*), HashMap::entry / filter closures (iter*), Cow (get_str), assign paths (update_or_add*) — NOT verified')
     im.replace('pub fn get<S: AsRef<str>>(&self, name: S)', 'pub fn get(&self, name: &str)', 'R10', 'generic S: AsRef<str> instantiated at &str')
     im.replace('map.get(name.as_ref())', 'map.get(name)', 'R10', '.as_ref() on &str is the identity')
     im.r11()
+    im.r16_rev_pairs('unset', 0, suffix='u')
+    im.resub(r'ShellVariable::new\(ShellValue::Unset\(ShellValueUnsetType::Untyped\)\)', 'vx_unset_placeholder()', 'R14', 'construction of the declared-but-unset placeholder -> stub', count=None)
     im.sig('new', ret='r', ensures=[
         C('C09 global-scope-at-bottom', 'r.scopes@.len() == 1 && r.scopes@[0].0 is Global && r.scopes@[0].1@ == Map::<Seq<char>, ShellVariable>::empty()')])
     im.sig('push_scope', ensures=[
@@ -45,6 +47,48 @@ def build(repo, findings):
         C('aux', 'forall|i: int| 0 <= i < it.iter.remaining().len() ==> *(#[trigger] it.iter.remaining()[i]) == self.scopes@[self.scopes@.len() - 1 - it.history@.len() - i]'),
         C('C09 all-inner-scopes-miss', 'forall|j: int| self.scopes@.len() - it.history@.len() <= j < self.scopes@.len() ==> !holds(self.scopes@, j, name@)'),
     ], body_first='proof { assert(holds(self.scopes@, self.scopes@.len() - 1 - it.history@.len(), name@) == map@.contains_key(name@)); }')
+    SC0, SC1 = 'old(self).scopes@', 'final(self).scopes@'
+    im.sig('unset', ret='res', requires=[C('aux fewer-than-2^31-scopes', 'old(self).scopes@.len() < 0x7fff_ffff')], ensures=[
+        C('C09 unset-of-an-unknown-name-changes-nothing', "(forall|k: int| 0 <= k < %s.len() ==> !holds(%s, k, name@)) ==> res == Ok::<Option<ShellVariable>, error::Error>(None) && same_but(%s, %s, -1)" % (SC0, SC0, SC1, SC0)),
+        C('C09 readonly-variable-cannot-be-removed', "forall|k: int| #[trigger] innermost(%s, k, name@) && %s[k].1@[name@].readonly() ==> res is Err && same_but(%s, %s, -1)" % (SC0, SC0, SC1, SC0)),
+        C('C09 unset-acts-on-the-innermost-scope-only', "forall|k: int| #[trigger] innermost(%s, k, name@) && !%s[k].1@[name@].readonly() ==> res == Ok::<Option<ShellVariable>, error::Error>(Some(%s[k].1@[name@])) && same_but(%s, %s, k) && %s[k].0 == %s[k].0" % (SC0, SC0, SC0, SC1, SC0, SC1, SC0)),
+        C('C09 unset-local-of-the-running-function-stays-local', "forall|k: int| #[trigger] innermost(%s, k, name@) && !%s[k].1@[name@].readonly() && topmost_local(%s, k) ==> %s[k].1@.contains_key(name@) && %s[k].1@[name@].is_placeholder() && %s[k].1@.remove(name@) == %s[k].1@.remove(name@)" % (SC0, SC0, SC0, SC1, SC1, SC1, SC0)),
+        C('C09 unset-elsewhere-removes-the-entry', "forall|k: int| #[trigger] innermost(%s, k, name@) && !%s[k].1@[name@].readonly() && !topmost_local(%s, k) ==> %s[k].1@ == %s[k].1@.remove(name@)" % (SC0, SC0, SC0, SC1, SC0)),
+    ])
+    im.loop(0, fn_name='unset', invariant=[
+        C('aux', '__nu <= self.scopes@.len() && self.scopes@.len() == old(self).scopes@.len() && self.scopes@.len() < 0x7fff_ffff'),
+        C('aux nothing-changed-so-far', 'same_but(self.scopes@, old(self).scopes@, -1)'),
+        C('C09 inner-scopes-do-not-hold-the-name', 'forall|j: int| __nu <= j < self.scopes@.len() ==> !holds(old(self).scopes@, j, name@)'),
+        C('aux local-count', '0 <= local_count <= self.scopes@.len() - __nu && ((local_count == 0) <==> (forall|j: int| __nu <= j < self.scopes@.len() ==> !(old(self).scopes@[j].0 is Local)))'),
+    ], decreases='__nu', body_first='let ghost sc_before = self.scopes@;')
+    HINT = '''proof {
+    let k = __ku as int;
+    assert(self.scopes@.len() == sc_before.len());
+    assert forall|j: int| 0 <= j < sc_before.len() && j != k implies #[trigger] self.scopes@[j] == sc_before[j] by {}
+    assert(self.scopes@[k].0 == sc_before[k].0);
+    assert(sc_before[k].1@ == old(self).scopes@[k].1@ && sc_before[k].0 == old(self).scopes@[k].0);
+    assert(holds(old(self).scopes@, k, name@) == sc_before[k].1@.contains_key(name@));
+    assert forall|k2: int| innermost(old(self).scopes@, k2, name@) && holds(old(self).scopes@, k, name@) implies k2 == k by {
+        if k2 < k { assert(!holds(old(self).scopes@, k, name@)); }
+    }
+    assert(topmost_local(old(self).scopes@, k) == (old(self).scopes@[k].0 is Local && local_count == 1));
+}'''
+    im.before(r'^\s*let unset_result = Self::try_unset_in_map\(', '''let ghost sc_mid = self.scopes@;
+proof {
+    let k = __ku as int;
+    assert(sc_mid[k].1@ == old(self).scopes@[k].1@ && sc_mid[k].0 == old(self).scopes@[k].0);
+    assert(holds(old(self).scopes@, k, name@) == sc_mid[k].1@.contains_key(name@));
+    assert forall|k2: int| innermost(old(self).scopes@, k2, name@) && holds(old(self).scopes@, k, name@) implies k2 == k by {
+        if k2 < k { assert(!holds(old(self).scopes@, k, name@)); }
+    }
+    assert(topmost_local(old(self).scopes@, k) == (old(self).scopes@[k].0 is Local && local_count == 1));
+}''', fn_name='unset', optional=True)
+    im.after_line(r'^\s*let unset_result = Self::try_unset_in_map\(', HINT, fn_name='unset', optional=True)
+    im.before(r'^\s*return Ok\(unset_result\);', '''proof {
+    let k = __ku as int;
+    assert forall|j: int| 0 <= j < sc_before.len() && j != k implies #[trigger] self.scopes@[j] == sc_before[j] by {}
+    assert(self.scopes@[k].0 == sc_before[k].0);
+}''', fn_name='unset', optional=True)
     im.sig('try_unset_in_map', ret='r', ensures=[
         C('C09 readonly-not-removed', '(old(map)@.contains_key(name@) && old(map)@[name@].readonly()) ==> r is Err && final(map)@ == old(map)@'),
         C('C09 unset-removes-only-that-name', '(old(map)@.contains_key(name@) && !old(map)@[name@].readonly()) ==> r == Ok::<Option<ShellVariable>, error::Error>(Some(old(map)@[name@])) && final(map)@ == old(map)@.remove(name@)'),
@@ -54,6 +98,6 @@ def build(repo, findings):
     u.raw(FOOTER)
     u.assume('external_body', 'ShellVariableMap is opaque with ASSUMED map contracts on get / unset / default (one-line HashMap delegations); ShellVariable is opaque except is_readonly')
     u.assume('uninterp', 'ShellVariableMap::view, ShellVariable::readonly')
-    u.assume('stub', 'ShellEnvironment::add / unset / get_mut* / update_or_add* (iter_mut().rev(), closures) and the value writers ShellVariable::assign / assign_at_index / unset_index are NOT verified: the readonly clause for value writers is out of reach (DESIGN.md C09)')
+    u.assume('stub', 'ShellEnvironment::add / get_mut* / update_or_add* (iter_mut().rev(), closures) and the value writers ShellVariable::assign / assign_at_index / unset_index are NOT verified: the readonly clause for value writers is out of reach (DESIGN.md C09)')
     u.expected_min_fns = 8
     return u
